@@ -222,9 +222,8 @@ let check_step cfg ps evname id (o : obs) : (string * string) list * bool =
 (* ---------- kind "seq" ---------- *)
 let uniq l = List.sort_uniq compare l
 
-let seq = function
-  | [cfg; steps] ->
-    let cfg = cfg_of cfg in
+(* replays synchronous steps: verdicts, tags, final model state, checker state, halted? *)
+let run_steps cfg steps =
     let ps = new_pstate () in
     let res = ref [] and tags = ref [] in
     let st = ref cm_init in
@@ -250,8 +249,14 @@ let seq = function
             List.iter (fun (k, d) -> if not (List.mem k !seen) then (seen := k :: !seen; res := Propfail (k, d) :: !res)) fails;
             if halt then stop := true;
             st := st1
-          | _ -> raise (Bad "step")) (lst steps);
-    if !res = [] then [Ok_ (uniq !tags)] else List.rev !res
+          | _ -> raise (Bad "step")) steps;
+    (List.rev !res, !tags, !st, ps, !stop || !mstop)
+
+let seq = function
+  | [cfg; steps] ->
+    let cfg = cfg_of cfg in
+    let (res, tags, _, _, _) = run_steps cfg (lst steps) in
+    if res = [] then [Ok_ (uniq tags)] else res
   | _ -> raise (Bad "seq case")
 
 (* ---------- kind "ticker" (real retry ticker, one adapter, scripted Start outcomes) ----------
@@ -341,6 +346,131 @@ let ticker = function
     if !res = [] then [Ok_ (uniq !tags)] else List.rev !res
   | _ -> raise (Bad "ticker case")
 
+(* ---------- kind "conc" (generator C16clamgrconc): Manager.Close() with events in flight ----------
+   (case n conc cfg mode setup oracle msgs variant bystander unreg ustatus status calls post snd rcv dump)
+   setup:  msg mode - synchronous steps as in "seq"; ticker mode - (reg id) ...
+   oracle: outcome of every Start call per adapter from the end of the set-up on
+   msgs:   (pg id) | (pa id) injected on the adapters' channels while Close() is called
+   calls:  Start/Close calls in order (msg mode: since the set-up; ticker mode: all), post: calls made
+           after Close() had returned.  bystander: adapter registered by another goroutine, or -1.
+   unreg:  started adapter for which another goroutine calls Unregister while the shutdown stops it, or -1;
+           ustatus: none | ok | panic | timeout *)
+let rec selections (l : int list) : (int list * int list) list =
+  (* ordered sub-selections of l (positions distinct): (chosen in order, rest) *)
+  ([], l) :: List.concat (List.mapi (fun i x ->
+      let rest = List.filteri (fun j _ -> j <> i) l in
+      List.map (fun (c, r) -> (x :: c, r)) (selections rest)) l)
+
+let rec splits l = match l with
+  | [] -> [([], [])]
+  | x :: t -> ([], l) :: List.map (fun (a, b) -> (x :: a, b)) (splits t)
+
+let conc = function
+  | [cfg; mode; setup; orc; msgs; variant; bystander; unreg; ustatus; status; calls; post; snd_; rcv_; dump] ->
+    let cfg = cfg_of cfg in
+    let mode = s_sym mode and variant = s_sym variant and status = s_sym status in
+    let bystander = (match bystander with Atom "-1" -> -1 | b -> s_int b) in
+    let unreg = (match unreg with Atom "-1" -> -1 | b -> s_int b) and ustatus = s_sym ustatus in
+    let orc = List.map (fun x -> outcome_of (s_sym x)) (lst orc) in
+    let pairs l = List.map (fun c -> match lst c with [i; k] -> (s_int i, s_sym k) | _ -> raise (Bad "call")) (lst l) in
+    let calls = pairs calls and post = pairs post in
+    let o = obs_of (List [Atom "ok"; List []; snd_; rcv_; dump]) in
+    let pgs = List.filter_map (fun m -> match lst m with
+        | [Atom "pg"; i] -> Some (s_int i) | [Atom "pa"; _] -> None | _ -> raise (Bad "msg")) (lst msgs) in
+    let (res0, tags0, st, ps, halted) =
+      if mode = "msg" then run_steps cfg (lst setup) else ([], [], cm_init, new_pstate (), false) in
+    if res0 <> [] || halted || status = "setup-failed" then
+      (if res0 = [] then [Ok_ ["conc-setup-failed"]] else res0)
+    else begin
+      let res = ref [] in
+      let add v = res := v :: !res in
+      let pf k d = if not (List.exists (function Propfail (k', _) -> k' = k | _ -> false) !res) then add (Propfail (k, d)) in
+      let tags = ref (("conc-" ^ mode) :: ("conc-" ^ variant) :: List.map (fun t -> "setup-" ^ t) tags0) in
+      let tag t = tags := t :: !tags in
+      if bystander >= 0 then tag "conc-bystander-register";
+      if unreg >= 0 then tag ("conc-bystander-unregister-" ^ ustatus);
+      (match ustatus with
+       | "panic" -> pf "clamgr.panic.unregister-concurrent"
+                      (Printf.sprintf "Go panic in Unregister of started adapter %d called by another goroutine while Close() was stopping it" unreg)
+       | "timeout" -> pf "clamgr.deadlock.unregister-concurrent"
+                        (Printf.sprintf "Unregister of adapter %d, called while Close() was stopping it, did not return" unreg)
+       | _ -> ());
+      let inflight = Printf.sprintf "%d PeerDisappeared and %d other status messages in flight, %s"
+          (List.length pgs) (List.length (lst msgs) - List.length pgs) variant in
+      (* ---- the property's checker: what the implementation did ---- *)
+      (match status with
+       | "timeout" -> pf "clamgr.deadlock.close-concurrent" ("Manager.Close() did not return within 15 s: " ^ inflight)
+       | "panic" -> pf "clamgr.panic.close-concurrent" ("Go panic in Manager.Close(): " ^ inflight)
+       | "register-timeout" -> pf "clamgr.deadlock.register-concurrent" "Register from another goroutine did not return after Close() had returned"
+       | "inject-timeout" -> add (Mismatch "a started adapter's status message was not taken by its element handler within 15 s")
+       | "ok" -> ()
+       | s -> raise (Bad ("status " ^ s)));
+      (* every call, in order: no Start of a started adapter, no Close of a stopped one, one instance per address *)
+      let log = ref ps.ilog in
+      let n = nads cfg in
+      let walk where l =
+        List.iter (fun (i, k) ->
+            let run = started !log i in
+            if k = "close" && not run then pf "clamgr.adapter.closed-while-not-started" (Printf.sprintf "Close of adapter %d which is not started (%s; %s)" i where inflight);
+            if k <> "close" && run then pf "clamgr.adapter.started-twice" (Printf.sprintf "Start of adapter %d which is already started (%s; %s)" i where inflight);
+            log := !log @ [pair_to_call (i, k)];
+            if k = "ok" then
+              for j = 0 to n - 1 do
+                if j <> i && started !log j && (adapter cfg j).ad_addr = (adapter cfg i).ad_addr then
+                  pf "clamgr.single-instance" (Printf.sprintf "adapters %d and %d with the same address are both started (%s)" i j where)
+              done) l in
+      walk "Close() with events in flight" calls;
+      if status = "ok" then begin
+        List.iter (fun (i, k) ->
+            if k = "close" then pf "clamgr.close.stop-after-return" (Printf.sprintf "adapter %d was stopped only after Close() had returned (%s)" i inflight)
+            else pf "clamgr.close.start-after-close" (Printf.sprintf "Start of adapter %d after Close() had returned (%s)" i inflight)) post;
+        walk "after Close() returned" post;
+        for i = 0 to n - 1 do
+          if started !log i then
+            pf "clamgr.close.left-running"
+              (Printf.sprintf "adapter %d is still started after Close() returned%s (%s)" i
+                 (if i = bystander then " and the Register call of another goroutine that overlapped it returned as well" else "") inflight);
+          if List.mem i o.snd_ || List.mem i o.rcv_ then
+            pf "clamgr.close.still-listed" (Printf.sprintf "adapter %d is listed by Sender()/Receiver() after Close() returned (%s)" i inflight)
+        done
+      end;
+      (* ---- correspondence: some schedule of the handler explains the calls (msg mode) ---- *)
+      let mine l = List.filter (fun (i, _) -> i <> bystander) l in
+      let byst = List.filter (fun (i, _) -> i = bystander) calls in
+      if byst <> [] then tag (if List.exists (fun (_, k) -> k = "ok") byst then "conc-bystander-started" else "conc-bystander-start-failed");
+      if status = "ok" && mode = "msg" && !res = [] then begin
+        let want = by_adapter (mine calls) in
+        let dump_wo = o.dump in
+        let found = ref None in
+        List.iter (fun (chosen, rest) ->
+            if !found = None then
+              List.iter (fun (pre, pst) ->
+                  if !found = None then begin
+                    let st' = cm_conc_close cfg st (List.map (fun i -> (nat_of_int i, orc)) pre) (List.map nat_of_int pst) in
+                    let got = List.map call_to_pair (drop (List.length st.st_log) st'.st_log) in
+                    if by_adapter got = want && not st'.st_panic then found := Some (List.length pre, List.length pst, List.length rest)
+                  end) (splits chosen)) (selections pgs);
+        (match !found with
+         | Some (a, b, c) ->
+           if a > 0 then tag "conc-restart-before-flag";
+           if b > 0 then tag "conc-unregister-after-flag";
+           if c > 0 && (a > 0 || b > 0) then tag "conc-part-of-queue-dropped";
+           if a = 0 && b = 0 then tag "conc-stop-only";
+           if List.exists (fun (_, k) -> k = "fr" || k = "fn") want then tag "conc-restart-failed"
+         | None ->
+           add (Mismatch (Printf.sprintf "no schedule of the handler (restart before / unregister after the stop flag / dropped, then shutdown) explains the calls [%s] (%s)"
+                            (show_calls (mine calls)) inflight)));
+        if dump_wo <> [] then add (Mismatch (Printf.sprintf "registry after Close(): model [] impl [%s]" (show_dump dump_wo)))
+      end;
+      if mode = "ticker" then begin
+        let nfail = List.length (List.filter (fun (_, k) -> k = "fr") calls) in
+        if nfail >= 4 then tag "conc-ticker-retries";
+        if List.exists (fun (_, k) -> k = "close") calls && List.length (List.filter (fun (_, k) -> k = "ok") calls) > List.length (lst setup) - 1 then tag "conc-ticker-restart"
+      end;
+      if !res = [] then [Ok_ (uniq !tags)] else List.rev !res
+    end
+  | _ -> raise (Bad "conc case")
+
 (* the runner looks up the case of every PROPFAIL line; on a badly broken tree tens of thousands of
    cases fail with the same key, so only the first [cap] per key are reported as PROPFAIL and the
    rest as (equally failing) MISMATCH lines *)
@@ -356,4 +486,5 @@ let capped h fields =
 
 let () =
   register "C16clamgr" "seq" (capped seq);
-  register "C16clamgr" "ticker" (capped ticker)
+  register "C16clamgr" "ticker" (capped ticker);
+  register "C16clamgrconc" "conc" (capped conc)
